@@ -251,7 +251,12 @@ def body_for(cfg, name, k, same=None):
     if name == 'exc_listed2':
         return E2('attempt %d' % k)
     if name == 'exc_unlisted':
-        return EU('attempt %d' % k)
+        # an unlisted exception that was raised FROM a listed one (a library error wrapping a timeout ...): the type that reaches the
+        # retry loop decides, not what it wraps
+        e = EU('attempt %d' % k)
+        e.__cause__ = E1('wrapped by attempt %d' % k)
+        e.__context__ = e.__cause__
+        return e
     if name == 'notjson':
         return 'garbage %d' % k
     if name == 'notresp':
